@@ -416,7 +416,66 @@ theorem build_explicit_preserved (env : Env) (b : KVs) (k : String) (x : Val) (h
 theorem pull_policy_alias (p : String) :
     pullPolicyV (.str p) = if p = "if_not_present" then .str "missing" else .str p := rfl
 
+/-! ## 4b. from the pieces to the whole of `Normalize` -/
+
+/-- the services of the normalised model: every service goes through `normalizeNetworks` then the loop -/
+theorem normalized_services (clean : String → String) (env : Env) (d : KVs) :
+    lookup "services" (normalizePure clean env d) =
+      (lookup "services" d).map fun v => nsTop clean env "services" (nnTop "services" v) := by
+  rw [lookup_normalizePure clean env d (by decide)]
+  have hf : topH clean env (lookup "name" d) "services" = fun v => nsTop clean env "services" (nnTop "services" v) :=
+    funext (topH_services clean env _)
+  rw [hf]
+
+theorem normalized_service (clean : String → String) (env : Env) (d svcs : KVs) (name : String) (s : KVs)
+    (hs : lookup "services" d = some (.map svcs)) (hn : lookup name svcs = some (.map s)) :
+    ∃ svcs', lookup "services" (normalizePure clean env d) = some (.map svcs') ∧
+      lookup name svcs' = some (.map (normService clean env (nnService s))) := by
+  refine ⟨mapVals (normServiceV clean env) (mapVals nnServiceV svcs), ?_, ?_⟩
+  · rw [normalized_services, hs]; simp [nnTop, nsTop]
+  · rw [lookup_mapVals, lookup_mapVals, hn]; rfl
+
+/-- volumes, configs and secrets of the normalised model: the declared ones, each named -/
+theorem normalized_resources (clean : String → String) (env : Env) (d : KVs) (r : String)
+    (hr : r = "volumes" ∨ r = "configs" ∨ r = "secrets") :
+    lookup r (normalizePure clean env d) = (lookup r d).map (nameSectionV (lookup "name" d)) := by
+  have hne : r ≠ "networks" := by rcases hr with h | h | h <;> subst h <;> decide
+  rw [lookup_normalizePure clean env d hne]
+  have hf : topH clean env (lookup "name" d) r = nameSectionV (lookup "name" d) := by
+    funext v
+    rcases hr with h | h | h <;> subst h <;> simp [topH, nnTop, nsTop, namesTop, resourceNames]
+  rw [hf]
+
+/-- nothing else at top level moves -/
+theorem normalize_top_frame (clean : String → String) (env : Env) (d : KVs) (k : String)
+    (h1 : k ≠ "services") (h2 : k ≠ "networks") (h3 : resourceNames.contains k = false) :
+    lookup k (normalizePure clean env d) = lookup k d := by
+  rw [lookup_normalizePure clean env d h2]
+  cases lookup k d <;> simp [topH_of_plain clean env _ h1 h3]
+
 /-! ## 5. idempotence: the fully explicit model is a fixed point, hence implicit ≡ explicit -/
+
+theorem depends_on_defaults_idem (d : KVs) : depDefaults (depDefaults d) = depDefaults d := by
+  unfold depDefaults
+  have e1 : setIfAbsent "condition" (.str "service_started")
+      (setIfAbsent "required" (.bool true) (setIfAbsent "condition" (.str "service_started") d)) =
+      setIfAbsent "required" (.bool true) (setIfAbsent "condition" (.str "service_started") d) := by
+    have : ∃ x, lookup "condition" (setIfAbsent "required" (.bool true) (setIfAbsent "condition" (.str "service_started") d)) = some x := by
+      rw [lookup_setIfAbsent]
+      simp only [filled, show ("condition" = "required") = False by simp, if_false]
+      rw [lookup_setIfAbsent]
+      simp only [filled, if_true]
+      cases lookup "condition" d <;> simp
+    obtain ⟨x, hx⟩ := this
+    exact setIfAbsent_of_some hx
+  rw [e1, setIfAbsent_idem]
+
+theorem env_file_value_idem (v : Val) : envFileValue (envFileValue v) = envFileValue v := by
+  cases v with
+  | str s => rfl
+  | map m => simp [envFileValue, setIfAbsent_idem]
+  | _ => rfl
+
 
 theorem normService_idempotent (clean : String → String) (hclean : ∀ s, clean (clean s) = clean s)
     (env : Env) (henv : envLookup env "" = none) (s : KVs) :
